@@ -258,7 +258,9 @@ class FakeOS:
         if fd not in SIM_FDS:
             # only the library's URL temp-file copy writes to a real descriptor
             self._tty.k.seam("tmp.write", len(data))
-            return real_os.write(fd, data)
+            n = real_os.write(fd, data)
+            self._tty.k.seam_after("tmp.write")
+            return n
         tty = self._tty
         tty.k.seam("tty.write", len(data))
         if tty.write_hook is not None:
